@@ -167,7 +167,7 @@ func Gen(prop string, r *sim.Rand, tier string) sim.Script {
 			s.Ops = append(s.Ops, WOp{K: "commit", N: r.Intn(5), Sync: true}, WOp{K: "reload"})
 		}
 		s.Ops = append(s.Ops, WOp{K: "prove", N: r.Intn(1 << 20)})
-		kinds := []string{"reweight", "zero", "swaphash", "swapchild", "subst", "drop", "dup", "reorder", "trunc", "flip", "shortw", "valw", "block"}
+		kinds := []string{"reweight", "zero", "swaphash", "swapchild", "subst", "drop", "dup", "reorder", "trunc", "flip", "shortw", "valw", "block", "retype"}
 		// swarm: a random subset of tamper kinds is enabled per run
 		var enabled []string
 		for _, k := range kinds {
